@@ -82,6 +82,23 @@ package object
 //@   pureeffect
 //@   defines err == nil ==> sigOK(req)
 
+// Proxied GET (the object is streamed from another container node): when the request
+// alone could not decide the extended ACL (recheckEACL), the header message of the remote
+// stream is where it is evaluated. The sync.Once body that handles that message may end
+// without an error only after CheckEACL answered nil / ErrNotMatched for the received
+// header - whether or not the header itself is relayed (payload_only suppresses it) -
+// and relays the header only after that answer; the payload chunks follow this message.
+//@ func eACLErr
+//@   property C29
+//@   ensures [denial_is_an_error] result != nil
+//@ func (*getProxyContext).handleInitResponse$2
+//@   property C29
+//@   ensures [header_eacl_evaluated_before_the_stream_continues] old(x.respStream.recheckEACL) && deref(err) == nil ==> extendedACLPassed()
+//@ callrule header_relayed_after_eacl_recheck in (*getProxyContext).handleInitResponse$2
+//@   property C29
+//@   callee (object.ObjectService_GetServer).SendMsg, (grpc.ServerStream).SendMsg, (grpc.ServerStreamingServer[*]).SendMsg
+//@   requires [extended_acl_evaluated_on_header] x.respStream.recheckEACL ==> extendedACLPassed()
+
 // ---- C31: an object received through Replicate is handed to local validation+storage
 // only if (1) the signature over the object ID verified under a key type matching the
 // declared scheme, (2) the server's own key is among the container's nodes, (3) the
